@@ -303,6 +303,9 @@ def impl_coin(a):
 FUNCS = {
     "bip44_seq": Func(model=model_seq, impl=impl_seq, direct=direct_seq),
     "bip44_coin": Func(model=lambda m, a: m.call("bip44_coin", a[0], a[1].encode()), impl=impl_coin),
+    # coin type of the live configuration vs the committed registry snapshot (Lemmas/Registry.v)
+    "coin_type_registry": Func(model=lambda m, a: m.call("registry_coin_idx", a[0], a[1].encode()),
+                               impl=lambda a: conf_of(a[0], a[1]).CoinIndex()),
 }
 
 
@@ -414,6 +417,9 @@ def every_coin(ctx):
 
 def generate(ctx):
     n = every_coin(ctx)
+    for hid in sorted(HIER):
+        for member in HIER[hid][1]:
+            ctx.run("coin_type_registry", [hid, member.name], "registry")
     ctx.note_exhaustive("all %d members of Bip44Coins/Bip49Coins/Bip84Coins/Bip86Coins/Cip1852Coins: coin row, legal "
                         "walk with every full-alphabet operation at every level, default path, public-only walk" % n)
     plan = []
